@@ -73,6 +73,36 @@ Section Oracles.
     end.
 End Oracles.
 
+(* ---- entry points modelled in theories/Transform.v ---- *)
+From GoCar Require Transform.
+Section Xform.
+  Variable hdrdec : bytes -> option (list bytes * N).
+  (* LoadIndex / GenerateIndex over an io.ReadSeeker *)
+  Definition tot_loadindex (o : Transform.xopts) (all : bytes) : tout :=
+    if allocs_panic (load_index_allocs hdrdec o all) then TPanic else
+    match Transform.load_index hdrdec o all with
+    | Ok _ => TOk
+    | Err e => TErr e
+    end.
+  (* ExtractV1File to an absent destination path, or in place *)
+  Definition copy_chunk : N -> N := fun _ => 32768.
+  Definition tot_extract (o : Transform.xopts) (in_place : bool) (a : bytes) : tout :=
+    if allocs_panic (extract_allocs o a) then TPanic else
+    match fst (Transform.extract_file hdrdec copy_chunk o
+                 (Transform.mkfs (Some a) (if in_place then Transform.DSame else Transform.DOther None))) with
+    | Transform.XOk => TOk
+    | Transform.XAlreadyV1 => TErr EOther
+    | Transform.XErr e => TErr e
+    end.
+  (* ReplaceRootsInFile with a non-nil root slice *)
+  Definition tot_replace (o : Transform.xopts) (roots : list bytes) (a : bytes) : tout :=
+    if allocs_panic (replace_allocs hdrdec o a) then TPanic else
+    match fst (Transform.replace_roots hdrdec o (Some a) (Some roots)) with
+    | Ok _ => TOk
+    | Err e => TErr e
+    end.
+End Xform.
+
 (* carv2.Header.ReadFrom: two fixed-size reads, nothing input-sized *)
 Definition tot_v2hdr (s : bytes) : tout :=
   match read_v2hdr s with
@@ -119,6 +149,9 @@ Definition entry_version : N := 4.
 Definition entry_v2hdr : N := 5.
 Definition entry_idx : N := 6.
 Definition entry_resume : N := 7.
+Definition entry_loadindex : N := 10.
+Definition entry_replaceroots : N := 14.
+Definition entry_extract : N := 15.
 (* 8.. : implementation-level entries (no model yet): brskip, reader, loadindex, robs, storage,
    inspect, replaceroots, extract, resume-huge, idxread-big (index.ReadFrom on megabyte inputs,
    which the extracted model is too slow for in the quick tier) *)
@@ -138,7 +171,20 @@ Definition model_outcome (input : val) : tout :=
   else if e =? entry_v2hdr then tot_v2hdr file
   else if e =? entry_idx then tot_idx file
   else if e =? entry_resume then tot_resume hdr (v_wopts_t (vnth 0 extra)) (vcids (vnth 1 extra)) file
-  else TUnmodelled.
+  else
+    (* extra = (flavour choice keys roots maxseek) *)
+    let flavour := vN (vnth 0 extra) in
+    let variant := match vB (vnth 1 extra) with b :: _ => b2n b | [] => 0 end in
+    let xo codec storeid := Transform.mkxopts (o_maxh o) (o_zeof o) codec storeid 2048 (vN (vnth 4 extra)) in
+    if e =? entry_loadindex then
+      (* modelled for a seekable source (bytes.Reader); variant 2 is ReadOrGenerateIndex *)
+      if (flavour =? 0) && negb (variant mod 4 =? 2) then
+        (if variant mod 4 =? 3 then tot_loadindex hdr (xo codec_sorted true) file
+         else tot_loadindex hdr (xo codec_mh_sorted false) file)
+      else TUnmodelled
+    else if e =? entry_replaceroots then tot_replace hdr (xo codec_mh_sorted false) (vcids (vnth 3 extra)) file
+    else if e =? entry_extract then tot_extract hdr (xo codec_mh_sorted false) (negb (variant mod 2 =? 0)) file
+    else TUnmodelled.
 
 Definition is_tagv (v : val) (s : string) : bool :=
   match v with VT t => String.eqb t s | _ => false end.
